@@ -57,12 +57,14 @@ register("EBR-TLS", rules_ebr.rule_tls)
 register("EBR-LIVE-PRECOND", rules_ebr.rule_live_precond)
 register("EBR-FLUSH-SCHEDULES", rules_ebr.rule_flush_schedules)
 register("EBR-CELL-RMW", rules_ebr.rule_cell_rmw)
+register("EBR-UNWIND-RESTORE", rules_ebr.rule_unwind_restore)
 register("EBR-LIST", rules_ebr.rule_list)
 register("EBR-QUEUE", rules_ebr.rule_queue)
 register("EBR-QUEUE-DROP", rules_ebr.rule_queue_drop)
 register("REC-DEPTH-GUARD", rules_rec.rule_depth_guard)
 register("REC-IMMEDIATE", rules_rec.rule_immediate)
 register("REC-COLLECT-REENTRY", rules_rec.rule_collect_reentry)
+register("REC-NO-UNBOUNDED", rules_rec.rule_no_unbounded_recursion)
 
 SCHED = "the schedule-quantified statement itself (that these necessary ordering/gating conditions compose under every interleaving is a model-checking question outside this family)"
 
@@ -80,7 +82,7 @@ prop("C06", "other",
      ["REC-IMMEDIATE", "CW-CASCADE-DECISION", "CW-ZERO-DEFERS"],
      ["the numeric bound on epoch advances for every shape and epoch alignment (a runtime quantity)"], assumptions=TRUST)
 prop("C07", "other",
-     ["REC-DEPTH-GUARD", "REC-COLLECT-REENTRY"],
+     ["REC-DEPTH-GUARD", "REC-COLLECT-REENTRY", "REC-NO-UNBOUNDED"],
      ["absence of overflow for a given stack size: frame size depends on T, codegen and the user's Drop/pop_edges"],
      assumptions=TRUST)
 prop("C08", "other",
@@ -93,7 +95,8 @@ prop("C13", "other",
       "CW-DEFERRED-ONLY"],
      [SCHED], assumptions=TRUST)
 prop("C15", "other",
-     ["EBR-NO-FORGET", "EBR-FINALIZE-HANDOFF", "EBR-DEFERRED-INLINE", "EBR-QUEUE-DROP", "EBR-QUEUE", "EBR-FLUSH-SCHEDULES"],
+     ["EBR-NO-FORGET", "EBR-FINALIZE-HANDOFF", "EBR-DEFERRED-INLINE", "EBR-QUEUE-DROP", "EBR-QUEUE", "EBR-FLUSH-SCHEDULES",
+      "EBR-UNWIND-RESTORE"],
      ["'eventually' (liveness) beyond its structural part: every flush / bag overflow schedules a collection and every "
       "collection tries to advance (EBR-FLUSH-SCHEDULES); that finitely many rounds suffice is not decided"], assumptions=TRUST)
 prop("C16", "other",
@@ -163,9 +166,10 @@ for _p, _src in (("C02", "C13"), ("C03", "C13"), ("C04", "C15")):
 # the handle that repin takes is what keeps a guard-only participant (C20) from being finalized mid-repin
 # "a pinned participant sees at most one advance" (C14) needs that its epoch is never re-published while a guard lives:
 # who may call repin_without_collect, the repin sequence, and the outermost-only clearing
-for _p, _rules in (("C11", ["CAS-EPOCH-BLIND"]), ("C20", ["EBR-REACTIVATE"]), ("C19", ["BIT-TAGGED"]),
-                   ("C02", ["CW-UPGRADE-TRACE", "OWN-PRIMITIVES", "LINK-TAG"]), ("C05", ["CW-UPGRADE-TRACE"]),
-                   ("C12", ["OWN-PRIMITIVES", "LINK-TAG"]),
+for _p, _rules in (("C11", ["CAS-EPOCH-BLIND"]), ("C20", ["EBR-REACTIVATE", "REC-NO-UNBOUNDED", "REC-COLLECT-REENTRY"]),
+                   ("C18", ["REC-NO-UNBOUNDED"]), ("C19", ["BIT-TAGGED"]),
+                   ("C02", ["CW-UPGRADE-TRACE", "OWN-PRIMITIVES", "LINK-TAG", "CW-WINDOW-FRESH"]), ("C05", ["CW-UPGRADE-TRACE"]),
+                   ("C12", ["OWN-PRIMITIVES", "LINK-TAG", "CW-WINDOW-FRESH"]),
                    ("C14", ["EBR-COLLECT-OUTERMOST", "EBR-REACTIVATE", "EBR-GUARD-COUNT"])):
     registry.PROPS[_p]["rules"] += [x for x in _rules if x not in registry.PROPS[_p]["rules"]]
 for _p, _rules in (("C01", ["CW-ALLOC-INIT", "CW-DEFER-WRAPPER"]), ("C02", ["EBR-DEFAULT-COLLECTOR", "CW-DEFER-WRAPPER"]),
